@@ -51,7 +51,7 @@ ASSUMPTIONS = [
     "self-intersecting polygons are outside the quantifier; polygons in the pool are simple (triangle, rectangle with a hole)",
 ]
 
-TIME_BUFFERS = [0, 2.0 ** -7, 0.01, 0.5]
+TIME_BUFFERS = [0, 2.0 ** -7, 0.01, 0.5, 2.0]  # 2.0: a time buffer above 1 s (larger than the pooled geometries)
 FREQ_BUFFERS = [0, 1, 100]
 SHIFTS = [0, 1, 2.5]
 OFFSET_B = (0.013, 77)
